@@ -102,3 +102,50 @@ Lemma c11_nth_error_skipn {A} (l : list A) n i : nth_error (skipn n l) i = nth_e
 Proof. revert l; induction n; intros [|a l]; simpl; auto. destruct i; reflexivity. Qed.
 Lemma c11_nth_error_app_last {A} (l : list A) x : nth_error (l ++ [x]) (length l) = Some x.
 Proof. rewrite nth_error_app2 by lia. rewrite Nat.sub_diag. reflexivity. Qed.
+
+(* non-vacuity helper: a spec run without None is `map Some tr` *)
+Definition c11_is_some {A} (o : option A) : bool := match o with Some _ => true | None => false end.
+Lemma c11_somes_tr {A} (l : list (option A)) : forallb c11_is_some l = true -> exists tr, l = map Some tr /\ length tr = length l.
+Proof.
+  induction l as [| [a |] l IH]; simpl; intros H; try discriminate.
+  - exists []. auto.
+  - destruct (IH H) as [tr [-> Hl]]. exists (a :: tr). simpl. rewrite map_length in *. auto.
+Qed.
+
+(* simulation with an observation-matching relation instead of equality *)
+Section SIM2.
+  Variables (W O Obs WS SObs : Type).
+  Variable step : W -> O -> c11_res W.
+  Variable observe : W -> c11_res Obs.
+  Variable sstep : WS -> O -> option WS.
+  Variable sobserve : WS -> SObs.
+  Variable R : W -> WS -> Prop.
+  Variable M : Obs -> SObs -> Prop.
+  Hypothesis Hstep : forall w ws o ws', R w ws -> sstep ws o = Some ws' -> exists w', step w o = C11_ok w' /\ R w' ws'.
+  Hypothesis Hobs : forall w ws, R w ws -> exists x, observe w = C11_ok x /\ M x (sobserve ws).
+  Lemma c11_sim_run_match : forall ops w ws tr, R w ws ->
+    c11_spec_run sstep sobserve ws ops = map Some tr -> exists mtr, c11_run step observe w ops = map C11_ok mtr /\ Forall2 M mtr tr.
+  Proof.
+    induction ops as [| o r IH]; intros w ws tr HR Hs; simpl in *.
+    - destruct tr; [| discriminate]. exists []. split; auto.
+    - destruct (sstep ws o) as [ws' |] eqn:E.
+      + destruct tr as [| x tr]; [discriminate |]. simpl in Hs. injection Hs as Hx Hr.
+        destruct (Hstep _ _ _ _ HR E) as [w' [Hw HR']]. rewrite Hw.
+        destruct (Hobs _ _ HR') as [y [Hy HM]]. rewrite Hy.
+        destruct (IH w' ws' tr HR' Hr) as [mtr [Hrun HF]].
+        exists (y :: mtr). simpl. rewrite Hrun. split; auto. constructor; auto. rewrite <- Hx. exact HM.
+      + destruct tr as [| x tr]; [discriminate |]. simpl in Hs. discriminate.
+  Qed.
+End SIM2.
+
+(* histories used by the non-vacuity examples of Properties_C11.v *)
+Definition c11_ex_al_ops : list (c11_al_op nat) :=
+  [AlPush _ 1; AlPush _ 2; AlPush _ 3; AlHold _ 2; AlPush _ 4; AlPush _ 5; AlErase _ 1; AlPurge _; AlPush _ 6; AlSet _ 0 9; AlHold _ 1; AlPush _ 7; AlClear _; AlPush _ 8].
+Definition c11_ex_sl_ops : list (c11_sl_op nat) :=
+  [SlPushBack _ false 1; SlPushBack _ false 2; SlPushFront _ false 0; SlMIns _ false 1 7; SlMRem _ false 3; SlMInsEnd _ false 5;
+   SlIAfter _ false 0 8; SlIDel _ false 0; SlAssignSelf _ false; SlCopy _ false; SlPopFront _ true; SlAssign _ false; SlClear _ true; SlPushBack _ true 4].
+Definition c11_ex_lru_ops : list (c11_lru_op nat) :=
+  [LruInsert _ 0 5; LruInsert _ 1 6; LruInsert _ 0 7; LruTouch _ 1; LruTouch _ 2; LruInsert _ 2 8; LruPopBack _; LruResize _ 1; LruPopFront _; LruClear _].
+Definition c11_ex_rv_ops : list (c11_rv_op nat) :=
+  [RvPush _ false 1; RvPush _ false 2; RvResize _ false 3; RvPop _ false; RvAt _ false 1; RvAt _ false 5; RvMake _ true 2 7; RvSwap _;
+   RvFrom _ true [4; 5; 6]; RvFill _ false 9; RvSet _ true 0 8; RvAssign _ false; RvClear _ true].
